@@ -3,8 +3,10 @@
 (* reader OBJECT identity (log.readers holds object ids; the locals of a call   *)
 (* hold object ids, not positions - finding F13 exists only because Delete      *)
 (* keeps a reference to an object that a rollover has replaced in the list).    *)
-(* One publisher (one message per call), one deleter (single offsets), one      *)
-(* consumer.  One action per critical section / pause window of the code:       *)
+(* One publisher (one message per call), one deleter (offset SETS of up to       *)
+(* MaxDel offsets), one consumer, and one reader G whose Get calls run          *)
+(* atomically between the steps of the others (a complete call placed inside    *)
+(* their pause windows).  One action per critical section / pause window:       *)
 (*   Publish: lock writerMu -> [rollover: new objects -> swap under readersMu]  *)
 (*            -> write the record to the file -> append to the index (the       *)
 (*            visibility and linearization point) -> unlock                     *)
@@ -19,7 +21,7 @@
 (* fresh non-head object); FALSE reproduces F13 (conc_f13.cfg).                 *)
 EXTENDS Integers, Sequences, FiniteSets, SequencesExt, FiniteSetsExt, TLC
 
-CONSTANTS MaxOff, RollAt, NDel, NCons, FixStale
+CONSTANTS MaxOff, RollAt, NDel, NCons, NGet, MaxDel, FixStale
 
 VARIABLES
   file,      \* base -> Seq(offset): records in the segment file
@@ -39,7 +41,7 @@ vars == <<file, vis, robj, readers, wr, writerMu, readersW, readersR, deleteMu, 
 view == <<file, vis, robj, readers, wr, writerMu, readersW, readersR, deleteMu, pc, loc, absLive, absNext, budget>>
 Log(p, a, x) == hist' = Append(hist, [p |-> p, a |-> a, x |-> x])
 
-Procs == {"P", "D", "C"}
+Procs == {"P", "D", "C", "G"}
 LastOf(s) == s[Len(s)]
 NextOfSeg(b) == IF vis[b] = <<>> THEN b ELSE LastOf(vis[b]) + 1
 NewId == Cardinality(DOMAIN robj) + 1
@@ -54,7 +56,7 @@ Init ==
   /\ pc = [p \in Procs |-> "idle"]
   /\ loc = [p \in Procs |-> [x |-> 0]]
   /\ absLive = <<>> /\ absNext = 0
-  /\ budget = [p \in Procs |-> CASE p = "P" -> MaxOff [] p = "D" -> NDel [] OTHER -> NCons]
+  /\ budget = [p \in Procs |-> CASE p = "P" -> MaxOff [] p = "D" -> NDel [] p = "G" -> NGet [] OTHER -> NCons]
   /\ hist = <<>>
 
 CanR(p) == readersW = "-"
@@ -144,19 +146,56 @@ CRead == /\ pc["C"] = "c_read"
          /\ pc' = [pc EXCEPT !["C"] = "idle"]
          /\ UNCHANGED <<file, vis, robj, readers, wr, writerMu, readersW, deleteMu, loc, absLive, absNext, budget>>
 
+\* ---------------------------------------------------------------------- Get
+\* segment.Get over the reader list + reader.Get on the object (log.go / log_reader.go), as in KlevSeg.ImplGet
+Ok(o) == [err |-> "", off |-> o]
+Er(e) == [err |-> e, off |-> -9]
+RGet(r, off) ==
+  LET its == vis[robj[r].seg] IN
+  IF its = <<>> THEN Er("IndexEmpty")
+  ELSE IF off = -2 THEN Ok(its[1])
+  ELSE IF off = -1 THEN Ok(LastOf(its))
+  ELSE IF off < its[1] THEN Er("NotFound")
+  ELSE IF off > LastOf(its)
+       THEN IF robj[r].head /\ off >= NextOfSeg(robj[r].seg) THEN Er("Invalid") ELSE Er("AfterEnd")
+  ELSE IF off \in Range(its) THEN Ok(off) ELSE Er("NotFound")
+LGet(off) ==
+  LET n == Len(readers) first == robj[readers[1]].seg IN
+  IF off >= 0 /\ off < first THEN Er(IF first = 0 THEN "Invalid" ELSE "NotFound")
+  ELSE LET i == IF off = -2 THEN 1 ELSE IF off = -1 THEN n
+                ELSE CHOOSE j \in 1..n : robj[readers[j]].seg <= off /\ (j = n \/ robj[readers[j+1]].seg > off)
+           r == RGet(readers[i], off)
+       IN IF r.err = "AfterEnd" THEN Er(IF i < n THEN "NotFound" ELSE "Invalid")
+          ELSE IF r.err = "IndexEmpty"
+               THEN IF off = -1 /\ i > 1 THEN RGet(readers[i - 1], off) ELSE Er("Invalid")
+          ELSE r
+GetOK(off, r) ==
+  CASE off = -2 -> IF absLive = <<>> THEN r.err = "Invalid" ELSE r = Ok(absLive[1])
+    [] off = -1 -> IF absLive = <<>> THEN r.err = "Invalid" ELSE r = Ok(LastOf(absLive))
+    [] OTHER -> IF off \in Range(absLive) THEN r = Ok(off)
+                ELSE IF off < absNext THEN r.err = "NotFound" ELSE r.err = "Invalid"
+\* a complete Get call, between the steps of the others (it needs the read lock only)
+GGet(off) == /\ budget["G"] > 0 /\ CanR("G")
+             /\ Assert(GetOK(off, LGet(off)), <<"GET-NOT-LINEARIZABLE", off, LGet(off), absLive, absNext>>)
+             /\ budget' = [budget EXCEPT !["G"] = @ - 1]
+             /\ UNCHANGED <<file, vis, robj, readers, wr, writerMu, readersW, readersR, deleteMu, pc, loc, absLive, absNext>>
+
 \* ------------------------------------------------------------------- Delete
-DStart(o) == /\ pc["D"] = "idle" /\ budget["D"] > 0 /\ deleteMu = "-"
+\* offset sets travel through the schedule as bit masks
+Mask(S) == FoldSet(LAMBDA o, acc : acc + 2 ^ o, 0, S)
+DelSets == {S \in SUBSET (0..(MaxOff - 1)) : S # {} /\ Cardinality(S) <= MaxDel}
+DStart(S) == /\ pc["D"] = "idle" /\ budget["D"] > 0 /\ deleteMu = "-"
              /\ deleteMu' = "D" /\ budget' = [budget EXCEPT !["D"] = @ - 1]
-             /\ loc' = [loc EXCEPT !["D"] = [o |-> o]]
+             /\ loc' = [loc EXCEPT !["D"] = [o |-> S]]
              /\ pc' = [pc EXCEPT !["D"] = "d_find"]
              /\ UNCHANGED <<file, vis, robj, readers, wr, writerMu, readersW, readersR, absLive, absNext>>
 
 \* findDeleteReader under the read lock (atomic: RLock .. RUnlock)
 DFind == /\ pc["D"] = "d_find" /\ CanR("D")
-         /\ LET o == loc["D"].o IN
+         /\ LET S == loc["D"].o  o == Min(S) IN
             IF o < robj[readers[1]].seg
             THEN /\ pc' = [pc EXCEPT !["D"] = "idle"] /\ deleteMu' = "-" /\ UNCHANGED loc   \* ErrNotFound
-            ELSE /\ loc' = [loc EXCEPT !["D"] = [o |-> o, rdr |-> readers[SegIdx(o)]]]
+            ELSE /\ loc' = [loc EXCEPT !["D"] = [o |-> S, rdr |-> readers[SegIdx(o)]]]
                  /\ pc' = [pc EXCEPT !["D"] = "d_ph1"] /\ UNCHANGED deleteMu
          /\ UNCHANGED <<file, vis, robj, readers, wr, writerMu, readersW, readersR, absLive, absNext, budget>>
 
@@ -165,12 +204,16 @@ DPhase1 == /\ pc["D"] = "d_ph1" /\ writerMu = "-"
            /\ pc' = [pc EXCEPT !["D"] = "d_rewrite"]
            /\ UNCHANGED <<file, vis, robj, readers, wr, writerMu, readersW, readersR, deleteMu, absLive, absNext, budget>>
 
-\* Rewrite reads the FILE of the chosen object's segment, without locks
+\* Rewrite reads the FILE of the chosen object's segment without locks: every complete record that is in the
+\* file NOW, also those appended after phase 1 (the rewrite limit taken in phase 1 only says from where on an
+\* unreadable record is "being appended" rather than corrupt; a record is written in one step here, so the
+\* limit has no counterpart in the model - a model with src cut at the limit was refuted by the schedule replay:
+\* the real Delete went on where that model returned errSegmentChanged)
 DRewrite == /\ pc["D"] = "d_rewrite"
             /\ LET l == loc["D"]
                    src == file[robj[l.rdr].seg]
-                   surv == SelectSeq(src, LAMBDA x : x # l.o)
-                   del == SelectSeq(src, LAMBDA x : x = l.o)
+                   surv == SelectSeq(src, LAMBDA x : x \notin l.o)
+                   del == SelectSeq(src, LAMBDA x : x \in l.o)
                IN IF del = <<>>
                   THEN /\ pc' = [pc EXCEPT !["D"] = "idle"] /\ deleteMu' = "-" /\ UNCHANGED loc
                   ELSE /\ loc' = [loc EXCEPT !["D"] = [o |-> l.o, rdr |-> l.rdr, wasWriter |-> l.wasWriter,
@@ -187,7 +230,7 @@ DPhase2Head ==
          nxt == NextOfSeg(b)
      IN IF Len(l.surv) + Len(l.del) # Len(vis[b])
         THEN UNCHANGED <<file, vis, robj, readers, wr, absLive>>              \* errSegmentChanged
-        ELSE /\ absLive' = SelectSeq(absLive, LAMBDA x : x # l.o)
+        ELSE /\ absLive' = SelectSeq(absLive, LAMBDA x : x \notin Range(l.del))
              /\ IF l.surv = <<>>
                 THEN LET w2 == NewId IN
                      /\ file' = Ext(Drop(file, b), nxt, <<>>) /\ vis' = Ext(Drop(vis, b), nxt, <<>>)
@@ -221,7 +264,7 @@ DReader ==
          b == robj[l.rdr].seg
          keep == SelectSeq(readers, LAMBDA r : robj[r].seg # b)
          pos == CHOOSE i \in 1..Len(readers) : robj[readers[i]].seg = b
-     IN /\ absLive' = SelectSeq(absLive, LAMBDA x : x # l.o)
+     IN /\ absLive' = SelectSeq(absLive, LAMBDA x : x \notin Range(l.del))
         /\ IF l.surv = <<>>
            THEN /\ file' = Drop(file, b) /\ vis' = Drop(vis, b)
                 /\ readers' = keep /\ UNCHANGED robj
@@ -243,7 +286,8 @@ DReader ==
 Next == \/ (Log("P", "PLock", 0) /\ PLock) \/ (Log("P", "PRoll", 0) /\ PRoll) \/ (Log("P", "PSwap", 0) /\ PSwap)
         \/ (Log("P", "PWrite", 0) /\ PWrite) \/ (Log("P", "PIndex", 0) /\ PIndex)
         \/ (\E off \in -2..(MaxOff + 1) : Log("C", "CLock", off) /\ CLock(off)) \/ (Log("C", "CRead", 0) /\ CRead)
-        \/ (\E o \in 0..(MaxOff - 1) : Log("D", "DStart", o) /\ DStart(o)) \/ (Log("D", "DFind", 0) /\ DFind)
+        \/ (\E off \in -2..MaxOff : Log("G", "GGet", off) /\ GGet(off))
+        \/ (\E S \in DelSets : Log("D", "DStart", Mask(S)) /\ DStart(S)) \/ (Log("D", "DFind", 0) /\ DFind)
         \/ (Log("D", "DPhase1", 0) /\ DPhase1) \/ (Log("D", "DRewrite", 0) /\ DRewrite)
         \/ (Log("D", "DPhase2Head", 0) /\ DPhase2Head) \/ (Log("D", "DPhase2NotHead", 0) /\ DPhase2NotHead)
         \/ (Log("D", "DReader", 0) /\ DReader)
